@@ -165,7 +165,24 @@ for d, _, fs in os.walk(src_root):
                 known[rel] = sorted(repo.module(rel).funcs)
             except Exception as e:      # noqa: BLE001
                 print("skip", rel, e)
+import ast as _ast
+known_globals = {}
+for rel in known:
+    try:
+        tree = repo.module(rel).tree
+    except Exception:      # noqa: BLE001
+        continue
+    names = set()
+    for st in tree.body:
+        targets = st.targets if isinstance(st, _ast.Assign) else [st.target] if isinstance(st, _ast.AnnAssign) else []
+        names |= {t.id for t in targets if isinstance(t, _ast.Name)}
+        if isinstance(st, _ast.ClassDef):
+            for b in st.body:
+                ts = b.targets if isinstance(b, _ast.Assign) else [b.target] if isinstance(b, _ast.AnnAssign) else []
+                names |= {f"{st.name}.{t.id}" for t in ts if isinstance(t, _ast.Name)}
+    known_globals[rel] = sorted(names)
 with open(os.path.join(HERE, "sa", "known_funcs_auto.py"), "w") as f:
-    f.write('"""Generated by tools/rolegen.py - the functions of every module as the rules know them."""\n\n')
-    f.write("KNOWN = " + pprint.pformat(known, width=160) + "\n")
+    f.write('"""Generated by tools/rolegen.py - the functions and module/class-level names of every module as the rules know them."""\n\n')
+    f.write("KNOWN = " + pprint.pformat(known, width=160) + "\n\n")
+    f.write("KNOWN_GLOBALS = " + pprint.pformat(known_globals, width=160) + "\n")
 print(f"{len(known)} modules, {sum(len(v) for v in known.values())} known functions")
